@@ -166,6 +166,12 @@ def F15_dotted_nest_name_query_dropna_sort():
     ok = q == [1202., 1203., 1204.] and d == 4 and s == [4., 5., 1., 2., 3.] and cols == ["x", "a.b"]
     return ok, (q, d, s, cols)
 
+@case
+def F16_eval_statements_quoted_nest():
+    nf = NestedFrame({"x": [1.0, 2.0]}, index=[0, 1]).add_nested(pd.DataFrame({"a": [1.0, 2.0, 3.0]}, index=[0, 0, 1]), "n-x")
+    nf.eval("`n-x`.a = `n-x`.a + 1\n`n-x`.d = `n-x`.a * 2", inplace=True)
+    return nf["`n-x`.d"].tolist() == [4.0, 6.0, 8.0], nf["`n-x`.d"].tolist()
+
 if __name__ == "__main__":
     bad = 0
     for k, (ok, d) in R.items():
